@@ -212,3 +212,21 @@ Lemma import_lands : forall parent vv,
   table_at (split_dot parent) (path_to_map parent vv) = Some vv
   /\ forall k, mget k (path_to_map parent vv) <> None -> k = hd "" (split_dot parent).
 Proof. intros parent vv H. split; [now apply path_to_map_lands|]. intros k. now apply path_to_map_keys. Qed.
+
+(* K-C11-2 as a refuted statement: "the condition is decided by what the parent's templates see"
+   fails for an ALIASED dependency at the second level whose boolean comes only from its own
+   values.yaml: a1's .Values hold g1.enabled = false, yet the chain a1/g1 is enabled - the values
+   processDependencyEnabled consults were coalesced one level up, before gca was renamed to g1. *)
+Definition kx_gca := Chart "gca" "1.0.0" [("enabled", VBool false); ("z", VNum 1)] None [] None ["templates/p.yaml"] [].
+Definition kx_suba := Chart "suba" "1.0.0" [] None [kx_gca]
+                        (Some [mkDep "gca" "1.0.0" "g1.enabled" [] "g1" false []]) ["templates/p.yaml"] [].
+Definition kx_top := Chart "top" "1.0.0" [] None [kx_suba] (Some [mkDep "suba" "1.0.0" "" [] "a1" false []]) [] [].
+
+Lemma condition_in_parent_view_refuted :
+  exists x, values_seen (fun _ _ => true) kx_top [] ["a1"] = Some x
+    /\ lookup_path ["g1"; "enabled"] (VMap x) = Some (VBool false)
+    /\ enabled_path (fun _ _ => true) kx_top [] "" ["a1"; "g1"].
+Proof.
+  eexists. split; [vm_compute; reflexivity|]. split; [vm_compute; reflexivity|].
+  exact (enabled_path_decide (fun _ _ => true) kx_top [] ["a1"; "g1"]).
+Qed.
